@@ -37,16 +37,18 @@ def rule_b(ctx):
     F = ctx.F
     rid = "C11.b"
     ctx.rule(rid, "close(): the flag store dominates the wake of the self-pipe (a woken consumer must see the flag)", floor=1)
-    c = F.one("signal_hook::iterator::backend::Handle::close")
-    ctx.fn(c)
+    c0 = F.one("signal_hook::iterator::backend::Handle::close")
+    ctx.fn(c0)
+    from .nf import NF
+    c = NF(F, c0)
     st = [s for s in sites(F, c) if s.op in ("store", "swap", "fetch_or", "compare_exchange") and recv_field(s)[1] == "closed"]
     from .C09 import wake_calls
     wk = [bb for bb, t in wake_calls(F, c)]
     dom = cfg.dominators(c)
     okk = len(st) == 1 and len(wk) >= 1 and all(st[0].bb in dom[w] and st[0].bb != w for w in wk)
-    ctx.check(okk, rid, "close:store-before-wake", "close stores the flag before waking the readers", c.span, {"stores": len(st), "wakes": len(wk)})
+    ctx.check(okk, rid, "close:store-before-wake", "close stores the flag before waking the readers", c0.span, {"stores": len(st), "wakes": len(wk)})
     ex = cfg.reachable(c, 0, avoid=set(wk), unwind=False) & set(c.exits())
-    ctx.check(not ex, rid, "close:always-wakes", "close wakes the readers on every path", c.span, None)
+    ctx.check(not ex, rid, "close:always-wakes", "close wakes the readers on every path", c0.span, None)
 
 
 def rule_c(ctx):
